@@ -1645,8 +1645,8 @@ class HDKey(Key):
         key = i[:32]
         chain = i[32:]
         key_int = int.from_bytes(key, 'big')
-        if key_int >= secp256k1_n:
-            raise BKeyError("Key int value cannot be greater than secp256k1_n")
+        if key_int == 0 or key_int >= secp256k1_n:
+            raise BKeyError("Key int value cannot be zero or greater than secp256k1_n")
         return HDKey(key=key, chain=chain, network=network, key_type=key_type, compressed=compressed,
                      encoding=encoding, witness_type=witness_type, multisig=multisig)
 
